@@ -164,17 +164,41 @@ def _mirrored_value_definition(data, replace_mask, xycenter, mask, result):
     return _rec(name, 'C07', ok, shape=d.shape, center=(cx, cy), n_replaced=len(ys))
 
 
+def _overlap_slices_definition(large_array_shape, small_array_shape, position, mode, result):
+    """`utils.cutouts._overlap_slices` when it returns: along each axis the window is the n indices starting at
+    ceil(pos - n/2); the large-array slice is its part inside [0, L) and must not be empty; the small-array slice
+    is that part in window coordinates ('partial', 'strict') or starts at 0 ('trim')."""
+    name = '_overlap_slices:definition'
+    try:
+        lg, sm = result
+        ok = True
+        for ax in range(len(large_array_shape)):
+            L, n, pos = int(large_array_shape[ax]), int(small_array_shape[ax]), float(position[ax])
+            first = int(math.ceil(pos - n / 2.0))
+            a, b = max(0, first), min(L, first + n)
+            ok &= b > a and (lg[ax].start, lg[ax].stop) == (a, b)
+            if mode == 'trim':
+                ok &= (sm[ax].start, sm[ax].stop) == (0, b - a)
+            else:
+                ok &= (sm[ax].start, sm[ax].stop) == (a - first, b - first)
+    except Exception as exc:  # noqa: BLE001
+        return _rec(name + ':condition_error:' + type(exc).__name__, 'C18', True)
+    return _rec(name, 'C18', bool(ok), large=tuple(large_array_shape), small=tuple(small_array_shape),
+                position=tuple(position), mode=mode, result=result)
+
+
 # ----------------------------------------------------------------------
 def _patch_importers(old, new, name):
-    """Replace references bound by `from x import name` in photutils modules."""
+    """Replace references bound by `from x import name [as alias]` in photutils modules."""
     import sys
     n = 0
     for modname, mod in list(sys.modules.items()):
         if mod is None or not modname.startswith('photutils'):
             continue
-        if getattr(mod, name, None) is old:
-            setattr(mod, name, new)
-            n += 1
+        for attr, val in list(vars(mod).items()):
+            if val is old:
+                setattr(mod, attr, new)
+                n += 1
     return n
 
 
@@ -219,6 +243,12 @@ def install():
     old = segutils._mask_to_mirrored_value
     new = icontract.ensure(_mirrored_value_definition)(old)
     out['_mask_to_mirrored_value'] = _patch_importers(old, new, '_mask_to_mirrored_value')
+    import photutils.datasets  # noqa: F401
+    import photutils.detection  # noqa: F401
+    from photutils.utils import cutouts
+    old = cutouts._overlap_slices
+    new = icontract.ensure(_overlap_slices_definition)(old)
+    out['_overlap_slices'] = _patch_importers(old, new, '_overlap_slices')
     _installed = True
     return out
 
